@@ -97,8 +97,11 @@ func c02Check(l *explore.Local, e *cpuEnv, c c02Case) *explore.Fail {
 			return f
 		}
 		l.Trans(1)
-		if o1.got.Halted || o1.got.Stopped || o1.got.HaltBug || !plainAddr(o1.want.PC) || o1.got.PC != o1.want.PC {
-			continue // HALT/STOP idle; RST lands in ROM (the following NOPs are measured by the sweep below)
+		if o1.want.Halted || o1.want.Stopped || o1.want.HaltBug || !plainAddr(o1.want.PC) || o1.got.PC != o1.want.PC {
+			// HALT/STOP idle; RST lands in ROM (the following NOPs are measured by the sweep below). The decision is the
+			// reference's: a CPU that went idle after an instruction that is neither HALT nor STOP must still be measured
+			// (its next instruction then never takes its documented length)
+			continue
 		}
 		// second instruction: placed where the first one left PC; the CPU is NOT re-seeded
 		e.placeCode(o1.want.PC, c02Code(op2))
